@@ -30,7 +30,7 @@ COMPONENTS = {
     "seam": ["which party acts next and with which arguments (PRNG)", "numpy global RNG reseeded per Welzl call", "dask scheduler -> synchronous", "module state via fork per run"],
     "uncontrolled": [],
 }
-BUDGET = {"quick": {"off_runs": 700, "on_runs": 30, "timeout": 300}, "thorough": {"budget_s": 900}}
+BUDGET = {"quick": {"off_runs": 1600, "on_runs": 40, "timeout": 300}, "thorough": {"budget_s": 900}}
 
 MESHES = [
     ("band", {"nx": 8, "ny": 3}),
@@ -58,7 +58,7 @@ COORDS = ["node_lon", "node_lat", "node_x", "node_y", "node_z", "face_lon", "fac
 DERIVE = COORDS + [
     "n_nodes_per_face", "edge_node_connectivity", "face_edge_connectivity", "edge_face_connectivity", "node_face_connectivity",
     "face_face_connectivity", "face_areas", "bounds", "edge_node_distances", "edge_face_distances", "antimeridian_face_indices",
-    "hole_edge_indices", "edge_node_z", "face_jacobian", "faces_at_lat", "tree:ball:nodes", "tree:ball:face centers", "tree:kd:nodes", "tree:kd:edge centers",
+    "hole_edge_indices", "edge_node_z", "face_jacobian", "faces_at_lat", "edge_node_z", "faces_at_lat", "edge_node_z", "faces_at_lat", "tree:ball:nodes", "tree:ball:face centers", "tree:kd:nodes", "tree:kd:edge centers",
 ]
 SETTERS = COORDS + [
     "face_node_connectivity", "edge_node_connectivity", "n_nodes_per_face", "face_areas", "node_face_connectivity", "face_face_connectivity",
